@@ -56,6 +56,7 @@ def batches(tier):
             {"name": "space", "runs": 2000, "weight": 2, "seed_offset": 100000},
             {"name": "history", "runs": 3600, "weight": 3, "seed_offset": 200000},
             {"name": "shift", "runs": 2000, "weight": 2, "seed_offset": 300000},
+            {"name": "crop", "runs": 2000, "weight": 2, "seed_offset": 400000},
         ]
     return [
         {"name": "loop", "runs": 30000, "weight": 4},
@@ -63,6 +64,7 @@ def batches(tier):
         {"name": "space", "runs": 10000, "weight": 2, "seed_offset": 100000},
         {"name": "history", "runs": 20000, "weight": 4, "seed_offset": 200000},
         {"name": "shift", "runs": 10000, "weight": 2, "seed_offset": 300000},
+        {"name": "crop", "runs": 10000, "weight": 2, "seed_offset": 400000},
     ]
 
 
@@ -70,7 +72,50 @@ def rnd(r, lo, hi):
     return round(r.uniform(lo, hi), 3)
 
 
+def generate_crop(seed, tier):
+    """single spatial mode, loop-structured (the layout get_delays / get_crop_value are documented for): a squeezed pulse enters at the
+    highest register position in every bin, loop i is a beamsplitter between the positions d_i apart whose angle array decides, per bin,
+    whether the light is coupled (non-zero) or keeps travelling down the register (zero); the pulse at position 0 is measured.
+    crop=True must cut exactly the vacuum pulses that reach the detector before the first computational one."""
+    r = random.Random("c13crop:%d" % seed)
+    L = r.choice([1, 2, 2, 3])
+    delays = [r.randint(1, 3) for _ in range(L)]
+    n = 1 + sum(delays)
+    T = r.randint(max(2, n - 1), n + 4)
+    pos = [n - 1]
+    for d in delays:
+        pos.append(pos[-1] - d)
+    params = [[rnd(r, 0.12, 0.35) for _ in range(T)]]  # squeezing of the source: non-zero in every bin (every pulse is computational)
+    ops = [{"op": "Sgate", "p": [{"tdm": 0} if r.random() < 0.7 else rnd(r, 0.15, 0.35), rnd(r, 0, 3)], "m": [n - 1]}]
+    for i, d in enumerate(delays):
+        style = r.random()
+        if style < 0.35:
+            z = min(T, d)  # the usual vacuum padding: crossed for exactly its delay (counted from bin 0)
+        elif style < 0.7:
+            z = r.randint(0, min(T, d + 2))
+        else:
+            z = 0
+        arr = [0.0] * z + [rnd(r, 0.3, 1.25) for _ in range(T - z)]
+        if r.random() < 0.5:
+            # more zero entries anywhere (crossed bins later in the sequence)
+            for _ in range(r.randint(1, 3)):
+                arr[r.randrange(T)] = 0.0
+        params.append(arr)
+        ops.append({"op": "BSgate", "p": [{"tdm": len(params) - 1}, rnd(r, 0, 3)], "m": [pos[i + 1], pos[i]]})
+        if r.random() < 0.5:
+            params.append([rnd(r, 0, 3) for _ in range(T)])
+            ops.append({"op": "Rgate", "p": [{"tdm": len(params) - 1}], "m": [pos[i + 1]]})
+    params.append([rnd(r, 0, 3) for _ in range(T)])
+    ops.append({"op": "MeasureHomodyne", "p": [{"tdm": len(params) - 1}], "m": [0]})
+    final = r.choice([{"shots": None, "space_unroll": True, "crop": True}, {"shots": 1, "space_unroll": False, "crop": True},
+                      {"shots": 2, "space_unroll": False, "crop": True}])
+    return {"N": [n], "T": T, "params": params, "ops": ops, "tape": seed, "history": [], "kind": "crop", "foreign_tdm": None, "shift": "default", "final": final,
+            "delays": delays}
+
+
 def generate(seed, tier, batch):
+    if batch == "crop":
+        return generate_crop(seed, tier)
     r = random.Random("c13:%d" % seed)
     wide = batch == "loop-wide"
     single_band = batch == "space" or r.random() < 0.45
@@ -118,6 +163,11 @@ def generate(seed, tier, batch):
     # the leading mode of every band is measured, in band order, as the last commands of the bin
     for j in range(nb):
         ops.append({"op": "MeasureHomodyne", "p": [par(3.0)], "m": [starts[j]]})
+    if nb > 1 and r.random() < 0.3:
+        # ... or in another order: the measurement commands act on different modes, so any order is the same program
+        tail = ops[-nb:]
+        r.shuffle(tail)
+        ops[-nb:] = tail
     foreign = None
     if r.random() < 0.3:
         # another time-domain program with a different band layout is built and run earlier in the same process
@@ -196,6 +246,12 @@ def rotate_positions(pos, N, shift):
     return pos[sh:] + pos[:sh]
 
 
+def band_of(script, j):
+    """band measured by the measurement command at op index j (measurements act on the leading mode of a band)"""
+    N = script["N"]
+    return [sum(N[:b]) for b in range(len(N))].index(script["ops"][j]["m"][0])
+
+
 def register_schedule(script, nbins):
     """which library register holds each measured position in each bin: list over bins of {op index: register}"""
     N = script["N"]
@@ -231,7 +287,7 @@ def reference(script, nbins, rotate=True):
                     m = pos[o["m"][0]]
                     if rotate:
                         sfops.Rgate(-ps[0]) | q[m]
-                    pulses[(meas_slots.index(j), g)] = m
+                    pulses[(band_of(script, j), g)] = m
                     pos[o["m"][0]] = nxt  # measured and reset: a fresh vacuum mode takes its place
                     nxt += 1
                     continue
@@ -276,7 +332,7 @@ def execute(script, w):
     by_reg = {}
     for g, d_ in enumerate(sched):
         for j in meas_slots:
-            by_reg.setdefault(d_[j], []).append((meas_slots.index(j), g))
+            by_reg.setdefault(d_[j], []).append((band_of(script, j), g))
 
     def pulse_of(reg, kcount):
         """(measurement slot, global bin) of the kcount-th measurement of register `reg`"""
@@ -384,10 +440,32 @@ def execute(script, w):
         simenv.rng.handler = tape_saved
         mu, cov = np.asarray(st.means()), np.asarray(st.cov())  # xxpp, hbar = 2
 
+        crop_ref = None
+        if script["kind"] == "crop":
+            # independent crop value: the pulses of the explicit loop that are exactly vacuum when they reach the detector, counted from
+            # the first bin (every pulse the source emits is squeezed, coupling angles are generic, so the first computational pulse
+            # is the first non-vacuum one).  For the joint state without measurements (shots=None) this is the marginal of the pulse; the
+            # marginals do not depend on later measurement outcomes, so it is the same number for sampling runs.
+            ref0, pulses0, nm0 = reference(script, T, rotate=False)
+            tape_saved0 = simenv.rng.handler
+            simenv.rng.handler = fallback
+            st0 = sf.Engine("gaussian").run(ref0).state
+            simenv.rng.handler = tape_saved0
+            mu0, cov0 = np.asarray(st0.means()), np.asarray(st0.cov())
+            crop_ref = T
+            for g in range(T):
+                i0 = pulses0[(0, g)]
+                B0 = [i0, i0 + nm0]
+                if np.max(np.abs(mu0[B0])) > 1e-9 or np.max(np.abs(cov0[np.ix_(B0, B0)] - np.eye(2))) > 1e-9:
+                    crop_ref = g
+                    break
+            w.probes["crop_reference_value_%d" % min(crop_ref, 4)] += 1
         if shots is None:
             # oracle 3: space-unrolled state (no measurement applied) equals the reference joint state on the pulse modes
             crop = 0
-            if final["crop"]:
+            if final["crop"] and crop_ref is not None:
+                crop = crop_ref
+            elif final["crop"]:
                 try:
                     crop = build_tdm(script).get_crop_value()
                 except Exception:  # noqa
@@ -452,15 +530,15 @@ def execute(script, w):
             # oracle 4: samples[shot, band, bin] is the outcome of exactly that pulse
             smp = np.asarray(res.samples)
             hb = math.sqrt(sf.hbar / 2)
-            want = np.array([[[inj(j, sh * T + t) * hb for t in range(T)] for j in range(nb)] for sh in range(shots)])
-            if smp.shape != want.shape or np.max(np.abs(smp - want)) > 1e-9:
+            want = np.array([[[inj(j, sh * T + t) * hb for t in range(crop_ref if (final["crop"] and crop_ref) else 0, T)] for j in range(nb)] for sh in range(shots)])
+            if smp.shape != want.shape or (want.size and np.max(np.abs(smp - want)) > 1e-9):
                 w.violation("samples", "Result.samples[shot, band, bin]", {"got_shape": list(smp.shape), "want_shape": list(want.shape), "got": smp.tolist(), "want": want.tolist(),
                                                                         "history": script["history"]}, hist_feats)
                 return
             sd = res.samples_dict
             for j in range(nb):
                 got = np.asarray(sd.get(starts[j])) if sd.get(starts[j]) is not None else None
-                if got is None or got.shape != want[:, j, :].shape or np.max(np.abs(got - want[:, j, :])) > 1e-9:
+                if got is None or got.shape != want[:, j, :].shape or (got.size and np.max(np.abs(got - want[:, j, :])) > 1e-9):
                     w.violation("samples", "Result.samples_dict", {"band": j, "key": starts[j], "got": None if got is None else got.tolist(), "want": want[:, j, :].tolist()}, hist_feats)
                     return
         # ---- the user's program is not changed by run (register, circuit form it was handed over in)
@@ -564,6 +642,8 @@ def shrink(script):
     meas = [o for o in ops if o["op"] == "MeasureHomodyne"]
     for cand in ddmin_list(gates, 0):
         yield dict(script, ops=cand + meas)
+    if meas != sorted(meas, key=lambda o: o["m"][0]):
+        yield dict(script, ops=gates + sorted(meas, key=lambda o: o["m"][0]))
     # fewer time bins
     if script["T"] > 1:
         yield dict(script, T=script["T"] - 1, params=[p[:-1] for p in script["params"]])
